@@ -1,7 +1,7 @@
 (* C10: probes emitted by one responder are observed by a peer responder.
    Statements only: each theorem restates the full type of a lemma proved in coq/proofs and is closed by
    `exact`; Print Assumptions beneath.  Regenerate with bin/genprops.py after a lemma changes. *)
-From LLTD Require Import BlockFun PropsEmit.
+From LLTD Require Import BlockFun PropsEmit EndToEnd.
 
 Theorem C10_emitted_frame_parses :
   forall (cA : pcfg) (d : emitee) (pad : list N),
@@ -73,3 +73,96 @@ Theorem C10_peer_reports_later :
   In ob reported.
 Proof. exact C10_reported_later. Qed.
 Print Assumptions C10_peer_reports_later.
+
+Theorem C10_from_the_emit_to_the_peers_report :
+  forall (ctxA : N) (cA : pcfg) (gA : gcfg) (mtuA ctxB : N) (cB : pcfg) (gB : gcfg) (mtuB : N),
+  (576 <= mtuA <= 9216)%N ->
+  (576 <= mtuB <= 9216)%N ->
+  forall (sA : ist) (bufA : list N) (hA : hdr) (sB : ist) (d : emitee) (pad q : list N) (hq : hdr),
+  parse_hdr bufA = Some hA ->
+  h_tos hA = tos_discovery ->
+  h_opc hA = opcode_emit ->
+  (h_w0 hA <= (mtuA - 34) / 14)%N ->
+  o mtuA <= length bufA ->
+  In d (spec_descs bufA (o (h_w0 hA))) ->
+  d_type d = 0%N \/ d_type d = 1%N ->
+  d_dst d = own cB ->
+  4 <= length pad ->
+  let fr := probe_frame cA d in
+  let ob := {| o_type := d_type d; o_rsrc := own cA; o_esrc := d_src d; o_edst := d_dst d |} in
+  see_full sB = false ->
+  existsb (obs_key_eqb ob) (see sB) = false ->
+  parse_hdr q = Some hq ->
+  h_tos hq = tos_discovery ->
+  h_opc hq = opcode_query ->
+  In (tx ctxA fr) (snd (f_step ctxA cA gA mtuA sA bufA)) /\
+  snd (f_step ctxB cB gB mtuB sB (fr ++ pad)) = [] /\
+  (let sB' := fst (f_step ctxB cB gB mtuB sB (fr ++ pad)) in
+  snd (f_step ctxB cB gB mtuB sB' q) =
+  [tx ctxB
+  (qresp_frame cB hq (h_seq hq) (ob :: firstn (qcap mtuB - 1) (see sB))
+  (qcap mtuB <? S (length (see sB))))]).
+Proof. exact C10_system. Qed.
+Print Assumptions C10_from_the_emit_to_the_peers_report.
+
+Theorem C10_whatever_the_emitter_sends :
+  forall (ctxA : N) (cA : pcfg) (gA : gcfg) (mtuA ctxB : N) (cB : pcfg) (gB : gcfg) (mtuB : N),
+  (576 <= mtuB <= 9216)%N ->
+  forall (sA : ist) (bufA : list N) (hA : hdr) (fr : list N),
+  parse_hdr bufA = Some hA ->
+  h_tos hA = tos_discovery ->
+  h_opc hA = opcode_emit ->
+  In (tx ctxA fr) (snd (f_step ctxA cA gA mtuA sA bufA)) ->
+  fr <> ack_frame cA (with_seq (set_active sA hA) (h_seq hA)) ->
+  exists (ds : list emitee) (d : emitee),
+  read_descs bufA (o (h_w0 hA)) 0 = Some ds /\
+  In d ds /\
+  (d_type d = 0%N \/ d_type d = 1%N) /\
+  fr = probe_frame cA d /\
+  (d_dst d = own cB ->
+  forall (sB : ist) (pad q : list N) (hq : hdr),
+  4 <= length pad ->
+  let ob := {| o_type := d_type d; o_rsrc := own cA; o_esrc := d_src d; o_edst := d_dst d |} in
+  see_full sB = false ->
+  existsb (obs_key_eqb ob) (see sB) = false ->
+  parse_hdr q = Some hq ->
+  h_tos hq = tos_discovery ->
+  h_opc hq = opcode_query ->
+  let sB' := fst (f_step ctxB cB gB mtuB sB (fr ++ pad)) in
+  snd (f_step ctxB cB gB mtuB sB' q) =
+  [tx ctxB
+  (qresp_frame cB hq (h_seq hq) (ob :: firstn (qcap mtuB - 1) (see sB))
+  (qcap mtuB <? S (length (see sB))))]).
+Proof. exact C10_system_sent. Qed.
+Print Assumptions C10_whatever_the_emitter_sends.
+
+Theorem C10_on_one_wire :
+  forall (cfgs : N -> pcfg) (g : gcfg) (mtus : N -> N) (m : N -> ist) (ctxA ctxB : N)
+  (bufA : list N) (hA : hdr) (d : emitee) (pad q : list N) (hq : hdr),
+  ctxA <> ctxB ->
+  (576 <= mtus ctxA <= 9216)%N ->
+  (576 <= mtus ctxB <= 9216)%N ->
+  parse_hdr bufA = Some hA ->
+  h_tos hA = tos_discovery ->
+  h_opc hA = opcode_emit ->
+  (h_w0 hA <= (mtus ctxA - 34) / 14)%N ->
+  o (mtus ctxA) <= length bufA ->
+  In d (spec_descs bufA (o (h_w0 hA))) ->
+  d_type d = 0%N \/ d_type d = 1%N ->
+  d_dst d = own (cfgs ctxB) ->
+  4 <= length pad ->
+  let fr := probe_frame (cfgs ctxA) d in
+  let ob := {| o_type := d_type d; o_rsrc := own (cfgs ctxA); o_esrc := d_src d; o_edst := d_dst d |} in
+  see_full (m ctxB) = false ->
+  existsb (obs_key_eqb ob) (see (m ctxB)) = false ->
+  parse_hdr q = Some hq ->
+  h_tos hq = tos_discovery ->
+  h_opc hq = opcode_query ->
+  let tagged := snd (Isolation.sys_run cfgs g mtus m [(ctxA, bufA); (ctxB, fr ++ pad); (ctxB, q)]) in
+  In (ctxA, tx ctxA fr) tagged /\
+  Isolation.acts_of ctxB tagged =
+  [tx ctxB
+  (qresp_frame (cfgs ctxB) hq (h_seq hq) (ob :: firstn (qcap (mtus ctxB) - 1) (see (m ctxB)))
+  (qcap (mtus ctxB) <? S (length (see (m ctxB)))))].
+Proof. exact C10_system_run. Qed.
+Print Assumptions C10_on_one_wire.
